@@ -271,15 +271,16 @@ class DPPSpec(Spec):
         grid = [[i / size, j / size] for i in range(size) for j in range(size)]
         for b in range(B):
             avail = [z3.Bool(f"r{b}_free{c}") for c in range(n)]
-            src.assume(z3.Sum([z3.If(a, 1, 0) for a in avail]) >= self.quota(n))
             if self.multi:
+                # the instance's mask may or may not already exclude the probing ports (generated instances do, hand-made / loaded
+                # ones that mark only keep-out cells do not): MDPPEnv._reset removes the ports itself
                 pr = [z3.Bool(f"r{b}_probe{c}") for c in range(n)]
-                for c in range(n):
-                    src.assume(z3.Implies(pr[c], z3.Not(avail[c])))
                 src.assume(z3.Or(*pr))
                 probes.append(pr)
                 allowed = [z3.And(avail[c], z3.Not(pr[c])) for c in range(n)]
+                src.assume(z3.Sum([z3.If(a, 1, 0) for a in allowed]) >= self.quota(n))
             else:
+                src.assume(z3.Sum([z3.If(a, 1, 0) for a in avail]) >= self.quota(n))
                 p = src.int(f"r{b}_probe", 0, n - 1)
                 for c in range(n):
                     src.assume(z3.Implies(p == c, z3.Not(avail[c])))
@@ -287,16 +288,24 @@ class DPPSpec(Spec):
                 allowed = list(avail)
             rows.append({"allowed": allowed})
             masks.append(avail), locs.append(grid)
-        src.ctx.assumptions.add("DPP/MDPP: initial action_mask = cells that are neither keep-out nor probing ports (generator); at least max_decaps free cells")
+        src.ctx.assumptions.add("DPP: initial action_mask = cells that are neither keep-out nor the probing port (generator); MDPP: any mask plus a probe map (ports may or may not be excluded from the mask already); at least max_decaps allowed cells")
         td = TensorDict({"locs": ftensor(locs), "probe": T.Tensor(np.array(probes, dtype=object), T.bool_ if self.multi else T.int64),
                          "action_mask": T.Tensor(np.array(masks, dtype=object), T.bool_)}, batch_size=[B])
         return Inst(td, rows, src.reals, [])
 
     def rows_from_td(self, td, B, n, variant):
+        if self.multi:  # allowed = not keep-out (mask) and not a probing port
+            return [{"allowed": [bool(x) and not bool(p) for x, p in zip(td["action_mask"].a[b], td["probe"].a[b])]} for b in range(B)]
         return [{"allowed": [bool(x) for x in td["action_mask"].a[b]]} for b in range(B)]
 
     def oracle(self, row, n, variant):
         return DPPOracle(row, n, self.quota(n))
+
+    @staticmethod
+    def bookkeeping_concrete(extra, mask, orc, st, b, n):
+        want = [bool(a) and not c for a, c in zip(orc.row["allowed"], st["chosen"])]
+        got = [bool(x) for x in mask[b]]
+        return [] if got == want else [f"action mask {[int(x) for x in got]} != initially allowed and not yet chosen {[int(x) for x in want]}"]
 
     def bookkeeping(self, td, orc, st, b, n):
         return [("action mask == initially free and not yet chosen", all_([T.s_eq(td["action_mask"].a[b, i], s_and(orc.row["allowed"][i], s_not(st["chosen"][i]))) for i in range(n)]))]
